@@ -37,7 +37,7 @@ from vk import loopcut, npshim
 from vk import sym as S
 from vk.registry import bounded, contract
 
-LEVEL = "proof"
+LEVEL = "other"  # one clause of three is proved (see the docstring); the other two are measured
 TRUSTED = [
     "conservative scleronomic System callee contract: every System quantity an uninterpreted function of q only (no explicit time), q_dot = B(q) u, g_dot = W_g(q)^T u, h(q, u) = h0(q) + G(q)[u, u] (potential + gyroscopic forces, even in u), no contacts / actuators / compliance / velocity constraints; step_callback is the identity (normalisation is invisible to the System: C01/C04/C11)",
     "the nonlinear solve returns an exact root of the function it was given (tolerance: composition with C22); linear solves A x = b; uniqueness of the roots is not proved",
